@@ -199,7 +199,8 @@ namespace
                 try
                 {
                     if (k == S_PUSH) x.push_back(e);
-                    else x.emplace_back(val);
+                    else if (mod(arg(o, 2), 2)) x.emplace_back(val);
+                    else x.emplace_back(e); // a named (non-const) object: it is copied, the caller keeps its value
                 }
                 catch (const tracked::Boom &)
                 {
@@ -208,6 +209,7 @@ namespace
                 }
                 R.throw_after = 0;
                 R.guard = false;
+                if (val_of(e) != val) violate("C14/argument-modified", "the object passed to %s as an lvalue holds %d afterwards, it held %d (it was moved from instead of copied)", S_NAME[k], val_of(e), val);
                 if (!thrown) { mx.push_back(val); truncate(mx); }
                 break;
             }
